@@ -60,3 +60,56 @@ R.contract(
     ],
     modifies=["layout.g_added", "layout.g_last_label", "layout.g_last_text"],
 )
+
+# ---------------------------------------------------------------- CommandHelp: a hidden sub-command contributes nothing
+M_CH = "clikit.ui.help.command_help"
+M_CMDM = "clikit.api.command.command"
+M_CFG = "clikit.api.config.config"
+M_CCFG = "clikit.api.config.command_config"
+M_FMT = "clikit.api.args.format.args_format"
+R.shape("CommandHelp", base="AbstractHelp")
+R.shape("BlockScope", external=True)
+R.shape("Paragraph", base="Component", external=True)
+R.shape("EmptyLine", base="Component", external=True)
+R.shape("CommandConfig", _help="str?")
+R.shape("Command", _args_format="ref ArgsFormat")
+R.contract("clikit.ui.components.paragraph:Paragraph.__init__", params={"text": "str"}, modifies=[], assumed=True)
+R.contract("clikit.ui.components.empty_line:EmptyLine.__init__", params={}, modifies=[], assumed=True)
+R.contract(M_BL + ":BlockLayout.block", params={}, returns="ref BlockScope", ensures=["fresh(result)"], modifies=[],
+           assumed=True, note="the indentation scope of a block (a context manager that swallows nothing)")
+R.contract(M_BL + ":BlockScope.__enter__", params={}, returns="none", modifies=[], assumed=True)
+R.contract(M_BL + ":BlockScope.__exit__", params={"a": "any", "b": "any", "c": "any"}, returns="none", modifies=[], assumed=True)
+R.contract(M_CMDM + ":Command.config", params={}, returns="ref CommandConfig", ensures=["result is self._config"],
+           modifies=[]).is_property = True
+R.contract(M_CMDM + ":Command.name", params={}, returns="str", ensures=["result == self._name"], modifies=[],
+           assumed=True, note="the name of the command's configuration").is_property = True
+R.contract(M_CMDM + ":Command.args_format", params={}, returns="ref ArgsFormat", ensures=["result is self._args_format"],
+           modifies=[]).is_property = True
+R.contract(M_CCFG + ":CommandConfig.is_hidden", params={}, returns="bool", ensures=["result == self._hidden"], modifies=[],
+           assumed=True, note="hidden or disabled (the flag pair is C13.B)")
+R.contract(M_CFG + ":Config.description", params={}, returns="str?", ensures=["(result is None) == (self._description is None)",
+           "result is None or result == self._description"], modifies=[], assumed=True).is_property = True
+R.contract(M_CFG + ":Config.help", params={}, returns="str?", modifies=[], assumed=True).is_property = True
+R.contract(M_FMT + ":ArgsFormat.get_arguments", params={"include_base": "bool"}, returns="odict[str,ref Argument]",
+           ensures=["fresh(result)"], modifies=[], assumed=True).defaults = {"include_base": True}
+R.contract(M_FMT + ":ArgsFormat.get_options", params={"include_base": "bool"}, returns="odict[str,ref Option]",
+           ensures=["fresh(result)"], modifies=[], assumed=True).defaults = {"include_base": True}
+LAYOUT_MODS = ["layout.g_added", "layout.g_last_label", "layout.g_last_text"]
+for _m, _p in (("_render_sub_command_description", {"layout": "ref BlockLayout", "description": "str"}),
+               ("_render_sub_command_help", {"layout": "ref BlockLayout", "help": "str"})):
+    R.contract(M_CH + ":CommandHelp." + _m, params=_p, ensures=["layout.g_added == old(layout.g_added) + 2"], modifies=LAYOUT_MODS)
+for _m in ("_render_sub_command_arguments", "_render_sub_command_options"):
+    R.contract(M_CH + ":CommandHelp." + _m, params={"layout": "ref BlockLayout", "items": "fn"},
+               ensures=["layout.g_added >= old(layout.g_added) + 1"], modifies=LAYOUT_MODS, assumed=True,
+               note="one line per element (AbstractHelp._render_argument / _render_option, verified) and a separator line")
+RSC = M_CH + ":CommandHelp._render_sub_command"
+R.contract(
+    RSC, params={"layout": "ref BlockLayout", "command": "ref Command"},
+    ensures=[
+        # a hidden sub-command adds nothing to the page; any other at least its name line and one more element
+        "implies(command._config._hidden, layout.g_added == old(layout.g_added))",
+        "implies(not command._config._hidden, layout.g_added >= old(layout.g_added) + 2)",
+    ],
+    modifies=LAYOUT_MODS,
+)
+C13_EXTRA = [RSC, M_CH + ":CommandHelp._render_sub_command_description", M_CH + ":CommandHelp._render_sub_command_help"]
